@@ -19,14 +19,14 @@ import random
 
 ID = "C10"
 BOUND = {
-    "quick": "1500 networks + track: grid-like (2..4 x 2..3 lattice, spacing 20..150 m, optional Lambert-93-like offset; "
+    "quick": "4000 networks + track: grid-like (2..4 x 2..3 lattice, spacing 20..150 m, optional Lambert-93-like offset; "
              "horizontal / vertical / diagonal edges of 2..4 vertices, straight or bent, either orientation) and random planar "
              "(4..8 nodes, non-crossing straight or bent edges); spatial index default / square / non-square resolution, margin "
              "0.02..0.5; tracks of 2..10 observations walking along the network: exactly on it (vertices, nodes, interior "
-             "points), near (noise 0.2..1.5 search radius), far (up to 3 network sizes) and, in 10 cases, very far (8..50 km, "
-             "field far_m); search radius 0.02..3 x spacing (and 0), gps_noise 0.5..200, transition_cost 1..100; 10 cases with "
+             "points), near (noise 0.2..1.5 search radius), far (1..3 network sizes, at most 1.5 km) and, in 10 cases, very far (8..50 km, "
+             "field far_m); search radius 0.02..3 x spacing (and 0; at most 600 m), gps_noise 0.5..200, transition_cost 1..100; 10 cases with "
              "observations exactly at the abscissa of a vertical segment (field vertical_exact)",
-    "thorough": "same generator, 40000 cases, 24 of them with observations exactly at the abscissa of a vertical segment, "
+    "thorough": "same generator, 100000 cases, 24 of them with observations exactly at the abscissa of a vertical segment, "
                 "20 with very far observations",
 }
 RULE = ("case = one network + index parameters + one track + parameters; one evaluation = one observation of the matched "
@@ -169,7 +169,7 @@ def _track(rnd, edges, spacing, radius, far_m, size):
             a = rnd.uniform(0, 2 * math.pi)
             x, y = x + r * math.cos(a), y + r * math.sin(a)
         elif mode == "far":
-            r = rnd.uniform(1.0, 3.0) * size if far_m is None else rnd.uniform(0.1, 1.0) * far_m
+            r = min(rnd.uniform(1.0, 3.0) * size, 1500.0) if far_m is None else rnd.uniform(0.1, 1.0) * far_m
             a = rnd.uniform(0, 2 * math.pi)
             x, y = x + r * math.cos(a), y + r * math.sin(a)
         out.append([x, y])
@@ -192,7 +192,9 @@ def _one_case(rnd, c, want_vertical_exact, want_far):
     ys = [p[1] for P in edges for p in P]
     size = max(max(xs) - min(xs), max(ys) - min(ys))
     tx, ty = max(xs) - min(xs), max(ys) - min(ys)
-    radius = rnd.choice([0.0, 0.02, 0.1, 0.25, 0.5, 0.5, 1.0, 1.0, 3.0]) * spacing
+    # (radius <= 600 m, near <= 1.5 radius, far <= 1.5 km: consecutive observations stay < 7 km apart, so that the
+    #  exp() overflow of the transition model is met in the far_m cases only)
+    radius = min(rnd.choice([0.0, 0.02, 0.1, 0.25, 0.5, 0.5, 1.0, 1.0, 3.0]) * spacing, 600.0)
     far_m = rnd.choice([8000.0, 20000.0, 50000.0]) if want_far else None
     k = rnd.random()
     if k < 0.25:
@@ -228,7 +230,7 @@ def _one_case(rnd, c, want_vertical_exact, want_far):
 def cases(tier, seed):
     rnd = random.Random(seed)
     # the two input classes that hit known defects are bounded in number (the runner stops after 50 failing cases)
-    n, nvert, nfar = (1500, 10, 10) if tier == "quick" else (40000, 24, 20)
+    n, nvert, nfar = (4000, 10, 10) if tier == "quick" else (100000, 24, 20)
     made = far = 0
     for c in range(n):
         want_far = far < nfar and c % 11 == 5
